@@ -98,6 +98,12 @@ def buffer_fact(func, t, pol, bufs):
     if isinstance(t, ast.UnaryOp) and isinstance(t.op, ast.Not):
         r = buffer_fact(func, t.operand, 'T' if pol == 'F' else 'F', bufs)
         return r
+    if isinstance(t, ast.Compare) and len(t.ops) == 1 and isinstance(t.ops[0], (ast.In, ast.NotIn)):
+        # `sock not in self._buffers`: no entry for the key is an empty buffer
+        fc = pat.compare_fact(t, pol)
+        if fc is not None and fc[1] == 'not in' and any(b_ in (f'{fc[2]}[{fc[0]}]', f'{fc[2]}.get({fc[0]})') for b_ in bufs):
+            return 'empty'
+        return None
     if isinstance(t, ast.Compare) and len(t.ops) == 1 and isinstance(t.left, ast.Call) and call_name(t.left) == 'len' and t.left.args and is_buf(t.left.args[0]):
         fc = pat.compare_fact(t, pol)
         if fc is None:
